@@ -387,6 +387,16 @@ Definition stop_halts (t : list entry) : bool :=
   && match exec_info (e_exec e) 0 with Some x => match x_class x with XPlain => true | _ => false end | None => false end.
 Definition wf_table (t : list entry) : bool := (Z.of_nat (List.length t) =? 256) && wf_table_from 0 t && stop_halts t.
 
+(* ---- operands that index something other than memory: the bound check of opReturnDataCopy --------------
+   offset64, overflow := dataOffset.Uint64WithOverflow(); end := dataOffset + length as a 256-bit sum;
+   end64, overflow := end.Uint64WithOverflow(); fail unless len(returnData) >= end64.  Operands are unbounded
+   Z here; every conversion the code performs is explicit. *)
+Definition retdata_guard (rds data_off len : Z) : bool :=
+  (data_off <? U64) && (let e := (data_off + len) mod W256 in (e <? U64) && (e <=? rds)).
+(* the same check with the end computed in uint64 (wraps): what the code must not do *)
+Definition retdata_guard_wrap64 (rds data_off len : Z) : bool :=
+  (data_off <? U64) && ((data_off + len mod U64) mod U64 <=? rds).
+
 (* ---- what the go/ast extractor (harness/c11ext) reads off an execute function's body ------------------
    deepest stack slot touched and net stack effect as a + b*n (n = constructor parameter of makeLog/makeDup/
    makeSwap/makePush), memory accesses (offset operand, literal addend, size operand or literal),
